@@ -102,6 +102,7 @@ func TestCheck(t *testing.T) {
 	r.SetRule("Hashes = (type in {0..6, 7, 100, 2^31-1, -1, -2^31}) x (digest length 0..40, 64) x (digest content from {true digest of the data under each known algorithm cut or padded to the length, true digest with one bit flipped (all 256/160 bits for the exact-length case), zeros, PRNG}) x (data of length 0,1,55,56,64,100,1000, PRNG). " +
 		"Oracle (reference model from the property text; digests by crypto/sha256, crypto/sha1 streaming and lukechampine.com/blake3, anchored by known-answer vectors): VerifyData(d) succeeds <=> type known and stored digest == reference digest of d (exact length); Sum succeeds <=> type known and then equals the reference; Validate ok => (type known and length right) or the all-zero 'no hash' value; CompareHash <=> (type, bytes) equal; a hash other than the all-zero value survives MarshalString/ParseFromB58, MarshalDigest+MarshalVT/UnmarshalVT and (valid hashes) MarshalJSON/UnmarshalHashJSON unchanged into a fresh object. " +
 		"Arbitrary encoded inputs (PRNG bytes, PRNG base58/JSON text, mutated valid encodings): no panic; a successful parse must re-encode and re-parse to the same (type, digest) and Validate/VerifyData on it must not panic. " +
+		"Decoded hashes: for hashes (true digest of the data under each algorithm, bit-flipped / cut / extended, the right digest under another, unknown or no type, empty) the harness' own protobuf-wire / base58 / JSON writers emit alternative encodings of the same (type, digest): extra unrecognised fields (varint, fixed32/64, bytes, nested message; field numbers 3..2^29-1) appended / prepended / between, fields in the other order, non-minimal varints in tags, type value and digest length, duplicated fields (last wins), explicit zero values, type varints wider than 32 bits, and PRNG compositions of these; JSON: enum by number or name, proto field name, other order, unknown (nested, look-alike) fields, base64url / unpadded digests, duplicate keys. Each is decoded with UnmarshalVT / ParseFromB58 / UnmarshalHashJSON and the DECODED object is judged by its (type, digest) with the same model: decoded value = encoded value (forms that the wire/JSON rules leave open are only counted); VerifyData <=> reference (on the data and on other data); Validate ok => well-formed; CompareHash with an in-process hash of the same value is true in both directions and false for another digest/type; Clone keeps the value; MarshalString/MarshalDigest/MarshalVT/MarshalJSON of the decoded object decode to the same value, and VerifyData holds on the re-decoded objects. A decoder rejecting a foreign form is counted, not flagged. " +
 		"A case is non-trivial when the code under test returned (no panic) and the model produced a verdict; distinct = distinct (operation, type, digest, data).")
 	r.Assume("The all-zero value (type 0, empty digest) is the package's 'no hash': it may validate and is not flagged; its base58 form is the empty string, which ParseFromB58 rejects - observed and counted, not flagged. Type 0 with a non-empty digest must not validate; VerifyData/Sum with type 0 must fail.")
 	r.Assume("'valid only if' is one direction: Validate rejecting a well-formed hash is counted (validate_rejects_wellformed), not flagged. Round trips are judged into a fresh receiver only. nil and empty digests are the same digest.")
@@ -736,6 +737,9 @@ func TestCheck(t *testing.T) {
 			r.Violation("roundtrip/parsed/changed", "a parsed hash changed across re-encoding", w)
 		}
 	})
+	// ---------------- hashes obtained by decoding alternative encodings
+	decodedPart(r)
+
 	r.Extra("hash_cases", len(hs))
 	r.Extra("sum_cases", len(scs))
 	r.Extra("compare_pairs", len(ps))
